@@ -5,6 +5,7 @@ import (
 	"context"
 	"fmt"
 	"strings"
+	"sync"
 	"time"
 
 	"github.com/google/uuid"
@@ -27,6 +28,11 @@ type Shard struct {
 	// ---------------------------
 	cacheManager *cache.Manager
 	logger       zerolog.Logger
+	// A write batch commits its storage transaction first and its cache
+	// transaction afterwards. The next batch must not look up the caches in
+	// between: a replacement that a search has put there while the batch was
+	// running is stale by then and only dropped by the cache commit.
+	writeMu sync.Mutex
 }
 
 // ---------------------------
@@ -150,6 +156,8 @@ func (s *Shard) InsertPoints(points []models.Point) error {
 	// Insert points
 	// Remember, Bolt allows only one read-write transaction at a time
 	var txTime time.Time
+	s.writeMu.Lock()
+	defer s.writeMu.Unlock()
 	cacheTx := s.cacheManager.NewTransaction()
 	err := s.db.Write(func(bm diskstore.BucketManager) error {
 		bPoints, err := bm.Get(pointstore.POINTSBUCKETNAME)
@@ -244,6 +252,8 @@ func (s *Shard) UpdatePoints(points []models.Point) ([]uuid.UUID, error) {
 	// throughout this function
 	updatedIds := make([]uuid.UUID, 0, len(points))
 	// ---------------------------
+	s.writeMu.Lock()
+	defer s.writeMu.Unlock()
 	cacheTx := s.cacheManager.NewTransaction()
 	err := s.db.Write(func(bm diskstore.BucketManager) error {
 		pointsBucket, err := bm.Get(pointstore.POINTSBUCKETNAME)
@@ -524,6 +534,8 @@ func (s *Shard) DeletePoints(deleteSet map[uuid.UUID]struct{}) ([]uuid.UUID, err
 	// ---------------------------
 	deletedIds := make([]uuid.UUID, 0, len(deleteSet))
 	// ---------------------------
+	s.writeMu.Lock()
+	defer s.writeMu.Unlock()
 	cacheTx := s.cacheManager.NewTransaction()
 	err := s.db.Write(func(bm diskstore.BucketManager) error {
 		bPoints, err := bm.Get(pointstore.POINTSBUCKETNAME)
